@@ -75,6 +75,12 @@ out += ["", "%d runs of seeded changes against checks (a change seeded for C01 i
         "* `C07-parsigex-seen-cache-ignores-subcommittee` (a de-duplication cache in the peer handler swallows the second subcommittee's partials): C07's check now runs the admission stream; monitor `admit:valid_not_delivered`.",
         "* `C13-caster-session-definition-hash` (the cluster-changing ceremonies hand the definition hash instead of the lock hash to `bcast.New`): glue outside `dkg/bcast`; translator T-session regenerates the table of `bcast.New` call sites and `Props/C13Session.sessions_per_ceremony` decides it (reported without input: it is a configuration slip).",
         ""]
+# notes of later sessions are kept in bin/seednotes_extra.md (plain markdown bullets)
+_extra = os.path.join(os.path.dirname(os.path.abspath(__file__)), "seednotes_extra.md")
+if os.path.exists(_extra):
+    if out and out[-1] == "":
+        out.pop()
+    out += open(_extra).read().rstrip("\n").split("\n") + [""]
 out += [
  "### 9.2 Single-token mutation campaign (`bin/mutate.py`, `bin/remutate.py`)",
  "",
